@@ -33,6 +33,7 @@ PROPS = {
     'C03': {
         'units': {
             'sighash_forkid': ['*'],
+            'sighash_legacy': ['Transaction::sighash_preimage_impl'],
             'tx_wire': ['TxOut::to_bytes_impl'],
             'script_ser': ['Script::to_bytes', 'Script::script_bits_to_bytes'],
         },
@@ -44,9 +45,26 @@ PROPS = {
         'level_text': 'Verus proves on the real sighash_bip143 / hash_inputs / hash_sequence / hash_outputs bodies that the returned preimage is byte-for-byte preimage_forkid(contents, index, flag, subscript, value) as written from the replay-protected sighash specification (field order, little-endian widths, the three midstate hashes zeroed exactly under the specified flag conditions), for every transaction, index, value and the six FORKID flags, and that Err is returned exactly for an out-of-range input index or SINGLE without a matching output.',
         'level_note': TB + ' sha256d is uninterpreted; the signing sentence of the property (signature verifies) is decided under C05.',
     },
+    'C10': {
+        'units': {
+            'sighash_legacy': ['*'],
+            'tx_wire': ['Transaction::to_bytes_impl', 'TxIn::to_bytes_impl', 'TxOut::to_bytes_impl', 'Transaction::get_input', 'Transaction::get_output', 'TxOut::new'],
+            'tx_cache': ['Transaction::set_input', 'Transaction::set_output', 'Transaction::add_input'],
+            'script_ser': ['Script::to_bytes', 'Script::script_bits_to_bytes'],
+        },
+        'kani': [
+            {'harness': 'write_varint_vec_all_u64', 'validates': 'shim contract VarIntWriter for Vec<u8>::write_varint == varint(n), all u64'},
+        ],
+        'assumptions': ['derive(PartialOrd) on the fieldless enum SigHash orders by discriminant value (used for the ANYONECANPAY test `sighash >= ANYONECANPAY`)',
+                        'derive(Default) on Script yields the empty script'],
+        'design_ref': 'DESIGN.md section 4 C10',
+        'level_text': 'Verus proves on the real sighash_legacy body (four loops, rules R6/R13) that for the six legacy flags the returned bytes equal preimage_legacy(contents, index, flag, subscript-without-any-code-separator) written from the original SignatureHash: other scripts blanked, NONE/SINGLE output and sequence rewriting, ANYONECANPAY isolation, 4-byte LE type; Err exactly for an out-of-range index or SINGLE without a matching output; the receiver is untouched. Script::strip_codeseparators is proved to remove separators at every nesting depth.',
+        'level_note': TB,
+    },
     'C04': {
         'units': {
             'tx_cache': ['*'],
+            'sighash_legacy': ['Transaction::sighash_legacy', 'Transaction::sighash_preimage_impl'],
             'sighash_forkid': ['Transaction::hash_inputs', 'Transaction::hash_sequence', 'Transaction::hash_outputs', 'Transaction::sighash_bip143'],
         },
         'assumptions': [SHA],
@@ -62,7 +80,6 @@ NOT_CLAIMED = {
     'C07': 'not reached yet',
     'C08': 'not reached yet',
     'C09': 'not reached yet',
-    'C10': 'not reached yet',
     'C11': 'not reached yet',
     'C12': 'not reached yet',
     'C13': 'not reached yet',
